@@ -326,7 +326,7 @@ class QosWorld:
             if i == 0 and ready and "ready_deliver" in dev:
                 acts.append((("deliver", 0), 1))
         if P and nt is not None and not ready:
-            if "late" in dev:
+            if "late" in dev and len(P) <= self.params.get("max_held", 99):  # (state-hashing runs bound the packets held in the air)
                 acts.append((("advance",), 1))
             if "jb" in dev and nt - EPS > now:
                 acts.append((("jb", 0), 1))
